@@ -2,9 +2,13 @@ package props
 
 import (
 	"context"
+	"fmt"
 	"sync"
 	"sync/atomic"
 	"time"
+
+	pb "github.com/kubewharf/kubebrain-client/api/v2rpc"
+	"go.etcd.io/etcd/api/v3/etcdserverpb"
 
 	"github.com/kubewharf/kubebrain/pkg/backend"
 
@@ -45,12 +49,13 @@ func init() {
 		{"lock-candidates(C14 concurrent)", runC14Concurrent},
 		{"two-nodes-follower-reads(C18 stress)", func(c *harness.Case) { runC18TwoNodes(c, false, false) }},
 		{"watch-catch-up-on-a-small-wrapping-cache", runC19CatchUp},
+		{"two-real-nodes-over-grpc(servers, syncer, election, metrics)", runC19Servers},
 		{"follower-becomes-leader(C15 fail-over)", func(c *harness.Case) { c.Index = (c.Index / 6) * 6; runC15(c) }},
 	}
 	Registry["C19"] = &Prop{
 		Plan: func(tier string) Plan {
 			return Plan{Level: "exploration", Race: true, NCases: pick(tier, 5, 150) * len(c19Items), Batch: 3, CaseTimeout: 150,
-				Rule: "the worker is built with -race (GORACE halt_on_error=0, log_path) and runs the concurrent workloads of C04 (writers, point and range readers, injected errors), C06 (observers, watchers, compactor), C05 (watchers joining/leaving/overflowing), C07 (compaction against writers), C09 (async retry after injected unknown outcomes) a small watch cache (8-64 events) that wraps under continuous writers while watches from revisions still inside it are registered, C14 (lock candidates), C15 (a follower serving concurrent reads, then taking over) and C18 (leader/follower pair with the real revision syncer) on memkv and Badger with production sequencer timing, each repeated with different seeds. " +
+				Rule: "the worker is built with -race (GORACE halt_on_error=0, log_path) and runs the concurrent workloads of C04 (writers, point and range readers, injected errors), C06 (observers, watchers, compactor), C05 (watchers joining/leaving/overflowing), C07 (compaction against writers), C09 (async retry after injected unknown outcomes) a small watch cache (8-64 events) that wraps under continuous writers while watches from revisions still inside it are registered, C14 (lock candidates), two complete nodes from server.NewServer (leader and follower, real Campaign / peer endpoint / revision syncer / Prometheus client) each driven by four concurrent gRPC clients sending every request type, C15 (a follower serving concurrent reads, then taking over) and C18 (leader/follower pair with the real revision syncer) on memkv and Badger with production sequencer timing, each repeated with different seeds. " +
 					"oracle = number of 'WARNING: DATA RACE' blocks whose access stacks contain a frame in github.com/kubewharf/kubebrain/ (this covers huandu/skiplist reached through memkv and Badger reached through the adapter), deduplicated by the pair of innermost kubebrain functions. " +
 					"non-trivial+distinct = workload kinds x seeds that ran to completion under the detector",
 				Assumptions: []string{"the race detector only sees the executions produced; reports entirely inside the TiKV mock or the harness are listed separately and do not decide the property",
@@ -232,4 +237,109 @@ func runC19CatchUp(c *harness.Case) {
 	c.Stat("catch_up_writes", atomic.LoadInt64(&writes))
 	c.Stat("catch_up_watches_registered", atomic.LoadInt64(&watches))
 	c.Stat("catch_up_watches_served_from_the_cache", atomic.LoadInt64(&caught))
+}
+
+// runC19Servers: the layers above the backend under the detector - two complete nodes (server.NewServer: real
+// Campaign, peer HTTP endpoint, revision syncer; gRPC with the production interceptors; the real Prometheus client
+// behind the recorder) over one store, one leading and one following, each driven by four concurrent gRPC clients
+// sending every request type of both APIs for about a second, while watches are open on the leader.
+func runC19Servers(c *harness.Case) {
+	eng, err := harness.NewEngine("memkv")
+	if err != nil {
+		c.Inconclusive(err.Error())
+		return
+	}
+	rm := harness.NewRecMetrics(true)
+	kv := harness.WithMetrics(eng.KV, rm)
+	A, ok := newFullNode(c, kv, rm, false)
+	if !ok {
+		return
+	}
+	defer A.n.Retire()
+	P := harness.Prefix
+	if A.waitLeads(P+"/srv/first") == nil {
+		c.Inconclusive("the first node did not become leader within the watchdog")
+		return
+	}
+	B, ok := newFullNode(c, kv, rm, false)
+	if !ok {
+		return
+	}
+	defer B.n.Retire()
+	ctx, cancel := context.WithCancel(context.Background())
+	defer cancel()
+	full := P + "/"
+	fullEnd := string(backend.PrefixEnd([]byte(full)))
+	encS, encE := coderC.EncodeObjectKey([]byte(full), 0), coderC.EncodeObjectKey([]byte(fullEnd), 0)
+	var stop int32
+	var wg sync.WaitGroup
+	var sent int64
+	for _, fn := range []*fullNode{A, B} {
+		for g := 0; g < 4; g++ {
+			wg.Add(1)
+			rr := newRand(c.Rng.Int63())
+			go func(fn *fullNode, g int) {
+				defer wg.Done()
+				e, b := fn.g.etcdGRPC, fn.g.brainGRPC
+				for i := 0; atomic.LoadInt32(&stop) == 0; i++ {
+					key := []byte(fmt.Sprintf("%s/srv/k%d", P, rr.Intn(4)))
+					switch rr.Intn(14) {
+					case 0:
+						_, _ = b.Create(ctx, &pb.CreateRequest{Key: key, Value: []byte("v")})
+					case 1:
+						if gr, gerr := b.Get(ctx, &pb.GetRequest{Key: key}); gerr == nil && gr.Kv != nil {
+							_, _ = b.Update(ctx, &pb.UpdateRequest{Kv: &pb.KeyValue{Key: key, Value: []byte("w"), Revision: gr.Kv.Revision}})
+						}
+					case 2:
+						_, _ = b.Delete(ctx, &pb.DeleteRequest{Key: key})
+					case 3:
+						_, _ = b.Range(ctx, &pb.RangeRequest{Key: []byte(full), End: []byte(fullEnd), Limit: int64(rr.Intn(3))})
+					case 4:
+						_, _ = b.Count(ctx, &pb.CountRequest{Key: []byte(full), End: []byte(fullEnd)})
+					case 5:
+						_, _ = b.ListPartition(ctx, &pb.ListPartitionRequest{Key: []byte(full), End: []byte(fullEnd)})
+					case 6:
+						_ = b.RangeStream(&pb.RangeRequest{Key: encS, End: encE}, &fakeRangeStream{fakeStream: fakeStream{ctx: ctx}})
+					case 7:
+						wctx, wcancel := context.WithTimeout(ctx, 30*time.Millisecond)
+						_ = b.Watch(&pb.WatchRequest{Key: []byte(full)}, &fakeBrainWatch{fakeStream: fakeStream{ctx: wctx}})
+						wcancel()
+					case 8:
+						_, _ = e.Txn(ctx, etcdCreate(string(key), []byte("e")))
+					case 9:
+						_, _ = e.Range(ctx, &etcdserverpb.RangeRequest{Key: []byte(full), RangeEnd: []byte(fullEnd), Limit: int64(rr.Intn(3))})
+					case 10:
+						_, _ = e.Range(ctx, &etcdserverpb.RangeRequest{Key: []byte(full), RangeEnd: []byte(fullEnd), CountOnly: true})
+					case 11:
+						_, _ = e.Txn(ctx, etcdUnguardedDelete(string(key)))
+					case 12:
+						wc, wcancel := context.WithTimeout(ctx, 30*time.Millisecond)
+						fw := newFakeWatchServer(wc)
+						done := make(chan error, 1)
+						go func() { done <- e.Watch(fw) }()
+						cr := &etcdserverpb.WatchCreateRequest{Key: []byte(full), RangeEnd: []byte(fullEnd)}
+						if rr.Intn(2) == 0 {
+							cr = &etcdserverpb.WatchCreateRequest{Key: encS, RangeEnd: encE, StartRevision: -int64(fn.n.Committed())}
+						}
+						select {
+						case fw.in <- &etcdserverpb.WatchRequest{RequestUnion: &etcdserverpb.WatchRequest_CreateRequest{CreateRequest: cr}}:
+						case <-wc.Done():
+						}
+						select {
+						case <-done:
+						case <-wc.Done():
+						}
+						wcancel()
+					case 13:
+						_, _ = b.Compact(ctx, &pb.CompactRequest{Revision: fn.n.Committed() - 1})
+					}
+					atomic.AddInt64(&sent, 1)
+				}
+			}(fn, g)
+		}
+	}
+	time.Sleep(1200 * time.Millisecond)
+	atomic.StoreInt32(&stop, 1)
+	wg.Wait()
+	c.Stat("requests_to_two_real_nodes_over_grpc", atomic.LoadInt64(&sent))
 }
